@@ -24,7 +24,14 @@ def run(tier, replay=None):
     if tier == "quick":
         k = seed() % 5
         scases = [c for i, c in enumerate(scases) if i % 5 == k]
-    cases = cases + scases
+    # every token sequence up to length 3 (thorough: 4) over 12 token classes, as a middle / last / unterminated last line
+    tcases, tres = tlc_generate("Gen_TokLines", cfg="Gen_TokLines" if tier == "quick" else "Gen_TokLines4", heap="8g", timeout=3000)
+    out.add_tlc(tres)
+    total += len(tcases)
+    if tier == "quick":
+        k = seed() % 2
+        tcases = [c for i, c in enumerate(tcases) if i % 2 == k]
+    cases = cases + scases + tcases
     r = rng("c07")
     items = []   # (case-meta, files_full, files_twin)
     for i, c in enumerate(cases):
@@ -136,5 +143,5 @@ def run(tier, replay=None):
         "generated_files_total": total, "generated_files_run": len(cases), "files_with_twin": len(items),
         "exhaustive": tier == "thorough",
         "evaluations": 2 * len(items), "distinct_nontrivial": len({json.dumps(i[1], sort_keys=True) for i in items}),
-        "rule": "Gen_Strays: 29 stray symbols x 5 placements x line position x good-line context x 2 endings (quick: every 5th); Gen_Lines: NL-line files (quick NL=3, every 3rd case rotating with seed; thorough NL=4, all) = good-line choices x 13 fault kinds x position x 3 line endings, every fifth through .include; + 7 faults x 3 endings injected at a random line of every repository/corpus program; each with its line-deleted twin",
+        "rule": "Gen_TokLines: every sequence of <= 3 (thorough 4) tokens over 12 token classes as middle / last / unterminated last line (quick: every 2nd); Gen_Strays: 29 stray symbols x 5 placements x line position x good-line context x 2 endings (quick: every 5th); Gen_Lines: NL-line files (quick NL=3, every 3rd case rotating with seed; thorough NL=4, all) = good-line choices x 13 fault kinds x position x 3 line endings, every fifth through .include; + 7 faults x 3 endings injected at a random line of every repository/corpus program; each with its line-deleted twin",
     })
